@@ -18,7 +18,7 @@
 //!   finds a narrow window in code that runs once per cell among millions of
 //!   blocks of inner loops.
 //! * mode `NOISE` (engine E3, native real rayon, uncontrolled): the same
-//!   candidates get a `yield_now`, a short spin or a short sleep from a per-thread
+//!   candidates get, one time in 32, a `yield_now`, a short spin or (rarely) a short sleep from a per-thread
 //!   PRNG. This widens race windows of real threads; it can only confirm.
 //! * mode `OFF`: one relaxed load and return.
 
@@ -221,19 +221,19 @@ fn guard_slow(id: u32, m: u32) {
             x ^= x << 17;
             t.rng.set(x);
             let rare = v < 8 || v.is_power_of_two();
-            let hit = if rare { x & 3 == 0 } else { x & 0xffff == 0 };
+            let hit = if rare { x & 31 == 0 } else { x & 0x3_ffff == 0 };
             if hit {
                 NOISE_EVENTS.fetch_add(1, Relaxed);
                 t.internal.set(t.internal.get() + 1);
-                match (x >> 20) % 10 {
-                    0..=5 => std::thread::yield_now(),
-                    6..=8 => {
-                        let n = 50 + ((x >> 32) % 4000);
+                match (x >> 20) % 32 {
+                    0..=21 => std::thread::yield_now(),
+                    22..=30 => {
+                        let n = 50 + ((x >> 32) % 2000);
                         for _ in 0..n {
                             std::hint::spin_loop();
                         }
                     }
-                    _ => std::thread::sleep(std::time::Duration::from_micros(20 + (x >> 40) % 200)),
+                    _ => std::thread::sleep(std::time::Duration::from_micros(20 + (x >> 40) % 100)),
                 }
                 t.internal.set(t.internal.get().saturating_sub(1));
             }
